@@ -154,6 +154,76 @@ ENTRY(z_mgr_order) {
   zdtOrder(tz, same, t, d);
 }
 
+// C08, inductive step: whatever an earlier history left in the recycled parts of a processor (transition pool / cache
+// slots, match array) - modelled as arbitrary bytes - a query that has to rebuild the cache answers what a processor
+// with zero-filled storage answers.  Zone a0, instant t in [a1,a2).  (friend test-class names declared by the library)
+class TransitionStorageTest_getFreeAgent {
+  public:
+    template <uint8_t N> static uint8_t* pool(extended::TransitionStorage<N>& ts) { return (uint8_t*) ts.mPool; }
+    template <uint8_t N> static unsigned poolBytes(extended::TransitionStorage<N>& ts) { return sizeof(ts.mPool); }
+};
+class ExtendedZoneProcessorTest_createMatch {
+  public:
+    static void havoc(ExtendedZoneProcessor& p) {
+      uint8_t* b = TransitionStorageTest_getFreeAgent::pool(p.mTransitionStorage);
+      for (unsigned i = 0; i < TransitionStorageTest_getFreeAgent::poolBytes(p.mTransitionStorage); i++) b[i] = __verif_nondet_u8("pool");
+      uint8_t* m = (uint8_t*) p.mMatches;
+      for (unsigned i = 0; i < sizeof(p.mMatches); i++) m[i] = __verif_nondet_u8("match");
+    }
+    static void zero(ExtendedZoneProcessor& p) {
+      uint8_t* b = TransitionStorageTest_getFreeAgent::pool(p.mTransitionStorage);
+      for (unsigned i = 0; i < TransitionStorageTest_getFreeAgent::poolBytes(p.mTransitionStorage); i++) b[i] = 0;
+      uint8_t* m = (uint8_t*) p.mMatches;
+      for (unsigned i = 0; i < sizeof(p.mMatches); i++) m[i] = 0;
+    }
+};
+class BasicZoneProcessorTest_init_primitives {
+  public:
+    static void havoc(BasicZoneProcessor& p) {
+      uint8_t* b = (uint8_t*) p.mTransitions;
+      for (unsigned i = 0; i < sizeof(p.mTransitions); i++) b[i] = __verif_nondet_u8("slot");
+    }
+    static void zero(BasicZoneProcessor& p) {
+      uint8_t* b = (uint8_t*) p.mTransitions;
+      for (unsigned i = 0; i < sizeof(p.mTransitions); i++) b[i] = 0;
+    }
+};
+
+static void sameAnswers(const TimeZone& dirty, const TimeZone& clean, acetime_t t) {
+  __verif_assert(dirty.getUtcOffset(t).toMinutes() == clean.getUtcOffset(t).toMinutes(), "offset independent of stale storage");
+  __verif_assert(dirty.getDeltaOffset(t).toMinutes() == clean.getDeltaOffset(t).toMinutes(), "DST offset independent of stale storage");
+  const char* x = dirty.getAbbrev(t);
+  const char* y = clean.getAbbrev(t);
+  bool same = true;
+  for (int i = 0; i < 8; i++) {
+    if (x[i] != y[i]) { same = false; break; }
+    if (x[i] == 0) break;
+  }
+  __verif_assert(same, "abbreviation independent of stale storage");
+}
+
+ENTRY(z_ext_havoc) {
+  ExtendedZoneProcessor dirtyProc, cleanProc;
+  ExtendedZoneProcessorTest_createMatch::havoc(dirtyProc);
+  ExtendedZoneProcessorTest_createMatch::zero(cleanProc);
+  TimeZone dirty = TimeZone::forZoneInfo(zonedbx::kZoneRegistry[a0], &dirtyProc);
+  TimeZone clean = TimeZone::forZoneInfo(zonedbx::kZoneRegistry[a0], &cleanProc);
+  int32_t t = __verif_nondet_i32("t");
+  __verif_assume(t >= (int32_t) a1 && t < (int32_t) a2);
+  sameAnswers(dirty, clean, t);
+}
+
+ENTRY(z_bas_havoc) {
+  BasicZoneProcessor dirtyProc, cleanProc;
+  BasicZoneProcessorTest_init_primitives::havoc(dirtyProc);
+  BasicZoneProcessorTest_init_primitives::zero(cleanProc);
+  TimeZone dirty = TimeZone::forZoneInfo(zonedb::kZoneRegistry[a0], &dirtyProc);
+  TimeZone clean = TimeZone::forZoneInfo(zonedb::kZoneRegistry[a0], &cleanProc);
+  int32_t t = __verif_nondet_i32("t");
+  __verif_assume(t >= (int32_t) a1 && t < (int32_t) a2);
+  sameAnswers(dirty, clean, t);
+}
+
 // C09: transition buffer bound of the extended processor for zone a0, instant t in [a1,a2)
 ENTRY(z_ext_highwater) {
   ExtendedZoneProcessor proc;
